@@ -1,7 +1,7 @@
 //! C11: editing operations keep the document sound (bounded-exhaustive, E3).
 //!
 //! Every sequence of at most N public editing calls (N = 2 quick, 3 thorough) over a fixed operation alphabet is
-//! applied to each of 7 well-formed seed documents, once as generated and once as loaded from its own saved file.
+//! applied to each of 8 well-formed seed documents, once as generated and once as loaded from its own saved file.
 //! After every call the real post-state is compared with what the property statement implies for the real
 //! pre-state (a Hoare triple per step).  All observations of a state (reachability, page tree, page content,
 //! stream decoding incl. inflate/ASCII85, usable resources) are re-implemented here and do not call the library.
@@ -658,6 +658,27 @@ fn seeds() -> Vec<Seed> {
             bookmarks: vec![BmSpec { title: "B".into(), page: z(301), parent: None }],
         });
     }
+    // S7 three-level tree where the root and the intermediate node both carry Resources (the nearest one wins as a whole)
+    {
+        let objs = vec![
+            (z(1), dobj(vec![("Type", nm("Catalog")), ("Pages", rf(2))])),
+            (z(2), dobj(vec![("Type", nm("Pages")), ("Kids", arr(vec![rf(3), rf(6)])), ("Count", int(2)), ("Resources", dobj(vec![("Font", dobj(vec![("F1", rf(9))])), ("ExtGState", dobj(vec![("GS0", rf(11))]))]))])),
+            (z(3), dobj(vec![("Type", nm("Pages")), ("Parent", rf(2)), ("Kids", arr(vec![rf(4)])), ("Count", int(1)), ("Resources", dobj(vec![("Font", dobj(vec![("F3", rf(9))])), ("XObject", dobj(vec![("Im0", rf(10))]))]))])),
+            (z(4), page(3, vec![("Contents", rf(7))])),
+            (z(6), page(2, vec![("Contents", rf(8))])),
+            (z(7), strm(vec![], C_A)),
+            (z(8), strm(vec![], C_B)),
+            (z(9), font()),
+            (z(10), image()),
+            (z(11), gstate()),
+        ];
+        out.push(Seed {
+            name: "deep", doc: new_doc("1.4", false, objs, z(1), None, 0),
+            pages: vec![PageExp { id: z(4), content: C_A.to_vec(), res: rs(&[("Font", "F3"), ("XObject", "Im0")]) }, PageExp { id: z(6), content: C_B.to_vec(), res: rs(&[("Font", "F1"), ("ExtGState", "GS0")]) }],
+            del: vec![z(7), z(9)], rep: vec![z(8)], ann: vec![], res_target: z(10),
+            bookmarks: vec![],
+        });
+    }
     out
 }
 
@@ -677,6 +698,7 @@ enum Op {
     Prune,
     DeletePages(Vec<u32>),
     Renumber,
+    RenumberWith(u32),
     Compress,
     Decompress,
     ChangeContent(u32, u8),
@@ -700,7 +722,7 @@ fn ops_for(s: &Seed) -> Vec<Op> {
     v.push(Op::Prune);
     for p in [vec![1], vec![2], vec![1, 2], vec![1, 1], vec![0, 9]] { v.push(Op::DeletePages(p)); }
     if np >= 3 { v.push(Op::DeletePages(vec![3, 1])); }
-    v.extend([Op::Renumber, Op::Compress, Op::Decompress]);
+    v.extend([Op::Renumber, Op::RenumberWith(4), Op::Compress, Op::Decompress]);
     for p in 1..=np { v.push(Op::ChangeContent(p, 0)); }
     v.push(Op::ChangeContent(1, 1));
     v.push(Op::ChangeContent(9, 0));
@@ -743,6 +765,7 @@ fn op_json(op: &Op) -> Value {
         Op::Prune => json!({"op": "Prune"}),
         Op::DeletePages(p) => json!({"op": "DeletePages", "pages": p}),
         Op::Renumber => json!({"op": "Renumber"}),
+        Op::RenumberWith(k) => json!({"op": "RenumberWith", "k": k}),
         Op::Compress => json!({"op": "Compress"}),
         Op::Decompress => json!({"op": "Decompress"}),
         Op::ChangeContent(p, w) => json!({"op": "ChangeContent", "page": p, "k": w}),
@@ -772,6 +795,7 @@ fn op_from_json(v: &Value) -> Option<Op> {
         "Prune" => Op::Prune,
         "DeletePages" => Op::DeletePages(v["pages"].as_array()?.iter().map(|x| x.as_u64().unwrap_or(0) as u32).collect()),
         "Renumber" => Op::Renumber,
+        "RenumberWith" => Op::RenumberWith(v["k"].as_u64().unwrap_or(1) as u32),
         "Compress" => Op::Compress,
         "Decompress" => Op::Decompress,
         "ChangeContent" => Op::ChangeContent(p, k),
@@ -845,6 +869,7 @@ fn apply(d: &mut Document, op: &Op, pages: &[Id]) -> Out {
         Op::Prune => Out::Ids(d.prune_objects()),
         Op::DeletePages(v) => { d.delete_pages(v); Out::Unit }
         Op::Renumber => { d.renumber_objects(); Out::Unit }
+        Op::RenumberWith(k) => { d.renumber_objects_with(*k); Out::Unit }
         Op::Compress => { d.compress(); Out::Unit }
         Op::Decompress => { d.decompress(); Out::Unit }
         Op::ChangeContent(p, k) => es(d.change_page_content(pg(pages, *p), content_arg(*k))),
@@ -993,6 +1018,7 @@ fn step(pre: &State, op: &Op) -> StepResult {
     let mut annot: Option<Id> = None;
     let mut trailer_ignore: &[&[u8]] = &[];
     let mut count_obl = "count-leaves";
+    let mut count_exempt = false;
     let touching = |id: Id, sc: &mut BTreeSet<Id>, sr: &mut BTreeSet<Id>| {
         for p in &pre.obs.pages { if p.cdeps.contains(&id) { sc.insert(p.id); } if p.rdeps.contains(&id) { sr.insert(p.id); } }
     };
@@ -1025,6 +1051,14 @@ fn step(pre: &State, op: &Op) -> StepResult {
             allocated.remove(id);
             if post.objects.get(id) != Some(&repl_obj(predoc.objects.get(id))) { fails.push(("replace-stores-object".into(), format!("set_object({:?}) did not store the object", id))); }
             touching(*id, &mut skip_c, &mut skip_r);
+            if pre.obs.tree_nodes.contains(id) {
+                // the caller overwrote a page-tree node with something that is no page: the page list is that of the
+                // model with the same overwrite, and the ancestors' Count is the caller's business (set_object is a raw store)
+                let mut m = predoc.clone();
+                m.objects.insert(*id, repl_obj(predoc.objects.get(id)));
+                expect_pages = page_tree(&m).0;
+                count_exempt = true;
+            }
         }
         Op::Delete(id) => {
             removed.insert(*id);
@@ -1068,7 +1102,7 @@ fn step(pre: &State, op: &Op) -> StepResult {
             strip_ids = del;
             drop_count = true;
         }
-        Op::Renumber => {
+        Op::Renumber | Op::RenumberWith(_) => {
             frame = false;
             positional = true;
             allocated.clear();
@@ -1176,7 +1210,7 @@ fn step(pre: &State, op: &Op) -> StepResult {
     }
 
     // identifiers: nothing new may land on an id that was handed out earlier
-    if !matches!(op, Op::Renumber | Op::Replace(_) | Op::SetBeyond) {
+    if !matches!(op, Op::Renumber | Op::RenumberWith(_) | Op::Replace(_) | Op::SetBeyond) {
         for k in &new_keys {
             if pre.allocated.contains(k) { fails.push((fresh_obl.into(), format!("{:?} created object {:?}, an id new_object_id had handed out before", op, k))); }
         }
@@ -1236,7 +1270,7 @@ fn step(pre: &State, op: &Op) -> StepResult {
     }
 
     // page tree, contents, resources
-    if pre.obs.counts_bad.is_empty() && !obs.counts_bad.is_empty() { fails.push((count_obl.into(), format!("after {:?}: {}", op, obs.counts_bad.join("; ")))); }
+    if pre.obs.counts_bad.is_empty() && !obs.counts_bad.is_empty() && !count_exempt { fails.push((count_obl.into(), format!("after {:?}: {}", op, obs.counts_bad.join("; ")))); }
     let post_ids: Vec<Id> = obs.pages.iter().map(|p| p.id).collect();
     if positional {
         if post_ids.len() != pages.len() { fails.push(("page-list".into(), format!("{} pages before {:?}, {} after", pages.len(), op, post_ids.len()))); }
@@ -1461,11 +1495,11 @@ pub fn run(thorough: bool) -> Report {
     let all = seeds();
     let nops: Vec<usize> = all.iter().map(|s| ops_for(s).len()).collect();
     let bound = format!(
-        "{}all call sequences of length 1..={} over a per-seed alphabet of {}..{} concrete calls (new_object_id; add_object x2; new_object_id+set_object; set_object above max_id; set_object on 1-3 existing ids; \
+        "{}all call sequences of length 1..={} over a per-seed alphabet of {}..{} concrete calls (new_object_id; add_object x2; renumber_objects; renumber_objects_with(4); new_object_id+set_object; set_object above max_id; set_object on 1-3 existing ids; \
 delete_object on 3-7 ids incl. content streams, shared/duplicated entries, resource dictionaries, pages, the catalog, trailer- and stream-dictionary-referenced, unreachable and absent ids; remove_object on 0-3 ids; prune_objects; \
 delete_pages [1],[2],[1,2],[1,1],[0,9],[3,1]; renumber_objects; compress; decompress; change_page_content / add_page_contents per page with short and compressible data and on an absent page; add_to_page_content; \
 add_xobject / add_graphics_state per page with new and existing names and on an absent page; insert_image, insert_form_object per page; add_bookmark x2; build_outline; save_to + reload) \
-on 7 seed documents of 8-18 objects (flat and nested page trees, sparse/high ids, generation 2, max_id slack, inherited/own/shared/indirect resources, Contents as reference/array/empty array/reference to array/absent, \
+on 8 seed documents of 8-18 objects (flat, nested and three-level page trees with Resources on two ancestors, sparse/high ids, generation 2, max_id slack, inherited/own/shared/indirect resources, Contents as reference/array/empty array/reference to array/absent, \
 Flate/ASCII85/empty-filter-array/DCT/indirect-Length streams, duplicate and shared annotations, Annots absent/direct/indirect, dangling and cyclic references, unreachable objects, registered bookmarks), \
 each seed once as generated and once as loaded from its own saved file; every step of every sequence checked against the pre-state; structures are small and acyclic in depth, so no call can recurse unboundedly (no child process used)",
         if thorough { "all call sequences of length 4 over a reduced alphabet of 20-21 calls (one concrete call per editing function, without set_object above max_id), and " } else { "" },
